@@ -20,7 +20,7 @@ META: Dict[str, Any] = {
     "level": "exploration",
     "pools": [{"backend": "c"}, {"backend": "py"}, {"backend": "c", "optimize": 1}],
     "tiers": {
-        "quick": {"runs": 24000, "chunk": 150, "wall": 60, "chunk_wall": 240},
+        "quick": {"runs": 24000, "chunk": 150, "wall": 200, "chunk_wall": 240},
         "thorough": {"runs": 1500000, "chunk": 400, "wall": 900, "chunk_wall": 600},
     },
     "selftest_runs": 6,
